@@ -201,6 +201,7 @@ for opname, sign in (("__add__", "+"), ("__sub__", "-")):
             c.requires("a > b")
         c.ensures(f"near(result.magnitude.value, log10(pow10(a * fv) {sign} pow10(b * fv)) / fv, 0)", "power-sum")
         c.ensures("result.baseunits.expression == u", "same-unit")
+        c.modifies()   # the operands are not touched: the same sum can be formed again from them
         c.no_raise()
 
 
